@@ -55,12 +55,14 @@ def exporters(ctx: Ctx):
 
 @rule("C13", "C13.R1", "effect closure of every exporter: nothing reachable from the exported object is written", 20,
       decides="serialising, printing, converting, comparing, hashing, unifying and flattening cannot change content, record order or namespace declarations")
-def c13_r1(ctx: Ctx, rule):
+def c13_r1(ctx: Ctx, rule, only=None):
     res = RuleResult()
     eff = get_effects(ctx)
     unresolved = sorted({u for s in eff.sum.values() for u in s.unresolved if not u.rsplit(": ", 1)[1].split("(")[0].endswith(("Exception", "Required", "DoNotExist", "Error"))})
     res.samples = [{"site": "call resolution", "reflective_sites": eff.reflective, "unresolved": unresolved[:10], "fixpoint_iterations": eff.iterations}]
     for q, roots, label in exporters(ctx):
+        if only is not None and not only(q, label):
+            continue
         s = eff.sum[q]
         closure = eff.closure(q)
         mine = [e for e in s.effects if base_of(e[0]) in roots]
@@ -448,6 +450,279 @@ def _made_on_the_spot(ctx, eff, fi, a):
     if bad:
         return False, "it can be %s, which is not made on the spot" % ("a loop/unpacking variable" if bad[0] is None else norm(bad[0])[:50])
     return True, "every definition of %s is a constructor or fresh-result call (%s)" % (a.id, "; ".join(norm(d)[:40] for d in defs))
+
+
+# ===================================================================================== caches (shared)
+CACHE_DECOS = ("cached_property", "lru_cache", "cache", "memoize", "memoized", "cached")
+CACHE_ENTRIES = {
+    "C07": [RD + ".ProvRDFSerializer.serialize", RD + ".ProvRDFSerializer.deserialize"],
+    "C08": [DOC + ".unified", BUNDLE + ".unified"],
+    "C09": [DOC + ".flattened", DOC + ".update", BUNDLE + ".update", DOC + ".add_bundle"],
+    "C12": [RECORD + ".copy", DOC + ".unified", BUNDLE + ".unified", DOC + ".flattened", DOC + ".update", BUNDLE + ".update", DOC + ".add_bundle", DOC + ".deserialize", "prov.read",
+            BUNDLE + ".add_record", BUNDLE + ".new_record"],
+    "C14": [GR + ".prov_to_graph", GR + ".graph_to_prov"],
+    "C15": [DOT + ".prov_to_dot"],
+    "C16": [DOC + ".serialize", DOC + ".deserialize", "prov.read"],
+}
+
+
+def cached_functions(ctx: Ctx):
+    out = []
+    for q, fi in ctx.p.functions.items():
+        if isinstance(fi.node, ast.Lambda) or fi.module.startswith("scripts."):
+            continue
+        for d in fi.node.decorator_list:
+            if _is_cache_deco(d):
+                out.append((q, fi, norm(d)))
+    return out
+
+
+def _is_cache_deco(d):
+    name = (dotted(d.func) if isinstance(d, ast.Call) else dotted(d)) or ""
+    return name.rsplit(".", 1)[-1] in CACHE_DECOS
+
+
+_POSITIVE = """
+import functools
+from functools import lru_cache, cache
+class K:
+    @functools.cached_property
+    def a(self): return 1
+    @lru_cache(maxsize=None)
+    def b(self, x): return x
+    @cache
+    def c(self): return 2
+    @property
+    def d(self): return 3
+"""
+
+
+def _matcher_selfcheck():
+    hits = [f.name for f in ast.walk(ast.parse(_POSITIVE)) if isinstance(f, ast.FunctionDef) and any(_is_cache_deco(d) for d in f.decorator_list)]
+    if hits != ["a", "b", "c"]:
+        raise AnalysisError("cache-decorator matcher self-check failed: %s" % hits)
+    return len(hits)
+
+
+def _reaches(ctx, eff, entries, target):
+    """Is `target` in the call closure of an entry, or named (as attribute / call) by a function of that closure?"""
+    tname = target.rsplit(".", 1)[1]
+    for e in entries:
+        if e not in ctx.p.functions:
+            raise AnalysisError("anchor vanished: function %s" % e)
+        cl = eff.closure(e)
+        if target in cl:
+            return e, "called"
+        for f in cl:
+            fi = ctx.p.functions.get(f)
+            if fi is None or isinstance(fi.node, ast.Lambda):
+                continue
+            for n in walk_function(fi.node):
+                if isinstance(n, ast.Attribute) and n.attr == tname:
+                    return e, "read in %s" % short(f)
+                if isinstance(n, ast.Name) and n.id == tname and isinstance(n.ctx, ast.Load) and fi.module == ctx.p.functions[target].module:
+                    return e, "called in %s" % short(f)
+    return None, ""
+
+
+def cache_rule(prop):
+    def run(ctx: Ctx, rule):
+        res = RuleResult()
+        eff = get_effects(ctx)
+        entries = CACHE_ENTRIES[prop]
+        cached = cached_functions(ctx)
+        res.ob("decorator matcher recognises %d of 3 caching spellings in the built-in positive example (and not @property)" % _matcher_selfcheck())
+        res.ob("functions under a caching decorator in the package: %d %s" % (len(cached), [short(q) for q, _, _ in cached]), nontrivial=False)
+        res.ob("entry points whose closure is searched for cached functions: %s" % [short(e) for e in entries])
+        for e in entries:
+            if e not in ctx.p.functions:
+                raise AnalysisError("anchor vanished: function %s" % e)
+        for q, fi, deco in cached:
+            entry, how = _reaches(ctx, eff, entries, q)
+            if entry is None:
+                res.ob("%s (%s) is not reachable from this property's entry points" % (short(q), deco), nontrivial=False)
+                continue
+            # (a) a cached view of instance state that has writers
+            if fi.cls:
+                reads, todo, seen_f = set(), list(ctx.helper_closure(q, 2)), set()
+                while todo:
+                    fq = todo.pop()
+                    if fq in seen_f:
+                        continue
+                    seen_f.add(fq)
+                    for n in walk_function(ctx.fn(fq).node):
+                        if isinstance(n, ast.Attribute) and isinstance(n.value, ast.Name) and n.value.id == "self" and isinstance(n.ctx, ast.Load):
+                            reads.add(n.attr)
+                            getter = ctx.p.lookup_method(fi.cls, n.attr)  # a property of the same class: its reads are this function's reads
+                            if getter and ctx.fn(getter).is_property:
+                                todo.append(getter)
+                fields = {f for f in reads if any(f in field_table(ctx, c) for c in ctx.p.mro(fi.cls))}
+                writers = [s for s in mutation_sites(ctx, fields) if not s.func.endswith(".__init__") and s.func != q] if fields else []
+                res.ob("%s caches a value computed from %s; writers of those fields outside __init__: %d" % (short(q), sorted(fields), len(writers)))
+                if writers:
+                    w = writers[0]
+                    res.fail(rule.id, "stale-cache::%s" % q, ctx.loc(q, fi.node),
+                             "%s is cached (%s) but computed from %s, which %s still writes (%s): the cached value goes stale (reached from %s: %s)" % (short(q), deco, sorted(fields), short(w.func), w.text[:50], short(entry), how),
+                             "read the view once (export / unified()), complete the record with add_attributes()/set_time(), then %s again: the result is built from the old view" % short(entry))
+                    continue
+            # (b) a cached function handing out a mutable object
+            rt = {t for t in eff.sum[q].ret_types if t in ctx.p.classes and t not in ("prov.identifier.Namespace", "prov.identifier.Identifier", "prov.identifier.QualifiedName", M + ".Literal")}
+            sm = eff.sum[q]
+            makes = sm.ret_fresh or not sm.ret_roots  # an object handed back from an argument is the caller's own: caching it shares nothing new
+            res.ob("%s returns repository objects of mutable classes: %s; made by the call: %s" % (short(q), sorted(x.rsplit(".", 1)[1] for x in rt) or "none", makes))
+            if rt and makes:
+                res.fail(rule.id, "cached-mutable-result::%s" % q, ctx.loc(q, fi.node),
+                         "%s is cached (%s) and returns a %s: every caller gets the same object (reached from %s: %s)" % (short(q), deco, "/".join(sorted(x.rsplit(".", 1)[1] for x in rt)), short(entry), how),
+                         "two calls with equal arguments return one object: modifying the first result changes the second")
+        return res
+
+    return run
+
+
+for _p, _r in (("C07", "C07.R7"), ("C08", "C08.R8"), ("C09", "C09.R8"), ("C12", "C12.R6"), ("C14", "C14.R5"), ("C15", "C15.R5"), ("C16", "C16.R6")):
+    RULES.setdefault(_p, []).append(Rule(_r, "no cached view of state that can still change, and no cached function handing out a mutable object, on this property's paths", 1, cache_rule(_p), "F-OWN",
+                                         "what is computed from a record or read from a source reflects its current state, and results are not shared between calls"))
+
+
+# ===================================================================================== one-shot iterators (shared)
+ONE_SHOT_CALLS = {"iter", "map", "filter", "zip", "chain", "from_iterable", "reversed", "enumerate", "islice", "starmap", "zip_longest", "product", "groupby", "imap", "ifilter", "izip", "accumulate", "takewhile", "dropwhile"}
+MATERIALISERS = {"list", "tuple", "set", "frozenset", "sorted", "dict"}
+
+
+def _iteration_sites(fnode, name):
+    """Syntactic sites that walk `name` as an iterable."""
+    sites = []
+    for n in walk_function(fnode):
+        if isinstance(n, (ast.For, ast.comprehension)) and isinstance(n.iter, ast.Name) and n.iter.id == name:
+            sites.append(n)
+        elif isinstance(n, ast.Call) and call_name(n) in (MATERIALISERS | {"sum", "min", "max", "any", "all", "len", "first", "next", "extend", "update", "join"}) and any(isinstance(a, ast.Name) and a.id == name for a in n.args):
+            if call_name(n) not in ("len",):
+                sites.append(n)
+        elif isinstance(n, ast.Compare) and any(isinstance(o, (ast.In, ast.NotIn)) for o in n.ops) and any(isinstance(c, ast.Name) and c.id == name for c in n.comparators):
+            sites.append(n)
+        elif isinstance(n, ast.Starred) and isinstance(n.value, ast.Name) and n.value.id == name:
+            sites.append(n)
+    return sites
+
+
+def multipass_params(ctx: Ctx):
+    """(function qual, parameter) pairs whose argument is walked more than once (directly, or by being forwarded to such a parameter)
+    without first being materialised."""
+    direct, forwards = {}, {}
+    for q, fi in ctx.p.functions.items():
+        if isinstance(fi.node, ast.Lambda) or fi.module.startswith("scripts."):
+            continue
+        for p in fi.params:
+            if p in ("self", "cls"):
+                continue
+            rebinds = [a for a in walk_function(fi.node) if isinstance(a, ast.Assign) and any(isinstance(t, ast.Name) and t.id == p for t in a.targets)]
+            if any(isinstance(a.value, ast.Call) and call_name(a.value) in MATERIALISERS for a in rebinds):
+                continue  # materialised by the callee itself
+            sites = _iteration_sites(fi.node, p)
+            direct[(q, p)] = len(sites)
+            for c in calls_in(fi.node):
+                for i, a in enumerate(c.args):
+                    if isinstance(a, ast.Name) and a.id == p:
+                        forwards.setdefault((q, p), []).append((call_name(c), i, None, isinstance(c.func, ast.Attribute)))
+                for k in c.keywords:
+                    if isinstance(k.value, ast.Name) and k.value.id == p and k.arg:
+                        forwards.setdefault((q, p), []).append((call_name(c), None, k.arg, isinstance(c.func, ast.Attribute)))
+    by_name = {}
+    for q, fi in ctx.p.functions.items():
+        if not isinstance(fi.node, ast.Lambda):
+            by_name.setdefault(fi.name, []).append(q)
+    for cq, ci in ctx.p.classes.items():
+        init = ctx.p.lookup_method(cq, "__init__")
+        if init:
+            by_name.setdefault(cq.rsplit(".", 1)[1], []).append(init)
+
+    def callee_params(name, idx, kw, is_method):
+        out = []
+        for q in by_name.get(name, []):
+            ps = ctx.fn(q).params
+            off = 1 if ps and ps[0] in ("self", "cls") else 0
+            if kw is not None:
+                if kw in ps:
+                    out.append((q, kw))
+            elif idx is not None and idx + off < len(ps):
+                out.append((q, ps[idx + off]))
+        return out
+
+    multi = {k for k, v in direct.items() if v >= 2}
+    changed = True
+    while changed:
+        changed = False
+        for k, fw in forwards.items():
+            if k in multi:
+                continue
+            hits = [t for (name, idx, kw, meth) in fw for t in callee_params(name, idx, kw, meth) if t in multi]
+            walks = direct.get(k, 0) + len(fw)
+            if hits and (walks >= 1):
+                if hits and (direct.get(k, 0) >= 1 or len(fw) >= 2 or hits):
+                    multi.add(k)
+                    changed = True
+    return multi, callee_params
+
+
+def _is_one_shot(ctx, fi, e, depth=0):
+    e0 = e
+    if isinstance(e, ast.Name) and depth < 3:
+        defs = [a.value for a in walk_function(fi.node) if isinstance(a, ast.Assign) and any(isinstance(t, ast.Name) and t.id == e.id for t in a.targets)]
+        if e.id in fi.params or not defs:
+            return None
+        hits = [_is_one_shot(ctx, fi, d, depth + 1) for d in defs]
+        return next((h for h in hits if h), None)
+    if isinstance(e, ast.GeneratorExp):
+        return "a generator expression"
+    if isinstance(e, ast.Call):
+        name = call_name(e)
+        if name in ONE_SHOT_CALLS and not (isinstance(e.func, ast.Attribute) and isinstance(e.func.value, ast.Name) and e.func.value.id in ("self",)):
+            return "%s(...)" % (dotted(e.func) or name)
+        r = ctx.p.resolve_dotted(fi.module, e.func) if not isinstance(e.func, ast.Attribute) or isinstance(e.func.value, ast.Name) else None
+        if r and r[0] == "func" and any(isinstance(x, (ast.Yield, ast.YieldFrom)) for x in walk_function(ctx.fn(r[1]).node)):
+            return "the generator function %s" % r[1]
+    return None
+
+
+def one_shot_rule(ctx: Ctx, rule):
+    res = RuleResult()
+    multi, callee_params = multipass_params(ctx)
+    res.ob("parameters walked more than once without being materialised: %s" % sorted("%s(%s)" % (short(q), p) for q, p in multi))
+    probe = ast.parse("def f(xs):\n    if K in [x[0] for x in xs]:\n        pass\n    for a, b in xs:\n        pass\n").body[0]
+    if len(_iteration_sites(probe, "xs")) != 2:
+        raise AnalysisError("iteration-site matcher self-check failed")
+    if not any(q.endswith(".add_attributes") for q, _ in multi):
+        res.ob("add_attributes no longer walks its argument twice: a one-shot iterator is harmless there", nontrivial=False)
+    n = 0
+    for q, fi in ctx.p.functions.items():
+        if isinstance(fi.node, ast.Lambda) or fi.module.startswith("scripts."):
+            continue
+        for c in calls_in(fi.node):
+            name = call_name(c)
+            for i, a in list(enumerate(c.args)) + [(None, k) for k in c.keywords]:
+                kw = a.arg if isinstance(a, ast.keyword) else None
+                expr = a.value if isinstance(a, ast.keyword) else a
+                if isinstance(a, ast.keyword) and not a.arg:
+                    continue
+                targets = [t for t in callee_params(name, i, kw, isinstance(c.func, ast.Attribute)) if t in multi]
+                if not targets:
+                    continue
+                n += 1
+                why = _is_one_shot(ctx, fi, expr)
+                if why:
+                    res.ob("%s: %s receives %s: ONE-SHOT" % (short(q), norm(c.func), why))
+                    res.fail(rule.id, "one-shot-to-multipass::%s::%s" % (q, name), ctx.loc(q, c),
+                             "%s passes %s to %s, whose parameter `%s` is walked more than once: the second walk sees nothing" % (short(q), why, name, targets[0][1]),
+                             "unified() of two records with one identifier: the merged record has no attributes at all")
+    res.ob("call sites handing an argument to a multi-pass parameter: %d, none of them a one-shot iterator" % n)
+    return res
+
+
+for _p, _r, _d in (("C05", "C05.R9", "every supplied attribute reaches the record: add_attributes walks its argument twice (collection test, then the store loop)"),
+                   ("C08", "C08.R9", "the merged record receives every attribute of every source record"),
+                   ("C14", "C14.R6", "conversion starts from unified(): merged records keep their attributes and endpoints"),
+                   ("C15", "C15.R6", "prov_to_dot draws unified(): merged records keep their attributes and endpoints")):
+    RULES.setdefault(_p, []).append(Rule(_r, "a parameter that is walked more than once never receives a one-shot iterator", 2, one_shot_rule, "F-PATH", _d))
 
 
 # ===================================================================================== C08
@@ -881,3 +1156,11 @@ def c08_r6(ctx: Ctx, rule):
                 res.fail(rule.id, "unified-bypasses-merge::%s" % q, ctx.loc(q, src), "%s can take its records from %s instead of self.%s()" % (short(q), [norm(d)[:40] for d in exprs if d is not None], helper),
                          "a bundle with repeated identifiers on which get_record() was asked for as many unknown identifiers as there are surplus records is returned un-merged")
     return res
+
+
+def c16_r9(ctx: Ctx, rule):
+    return c13_r1(ctx, rule, only=lambda q, label: label.startswith("serialize(") or label in ("ProvDocument.serialize", "ProvBundle.get_provn", "ProvRecord.get_provn"))
+
+
+RULES.setdefault("C16", []).append(Rule("C16.R9", "serialising is repeatable: the text exporters leave the document as it was (C13.R1 restricted to serialize / get_provn)", 6, c16_r9, "F-OWN",
+                                        "the string returned by one serialize() call and the text a second call writes to a stream or a path are the same"))
